@@ -530,9 +530,14 @@ func lenOf(v ssa.Value, coll ssa.Value) bool {
 	if !ok {
 		if cv, isC := Strip(v).(*ssa.Call); isC {
 			cl = cv
-		} else if rs := Roots(v, false); len(rs) == 1 && rs[0] != v {
+		} else if rs := sameBodyRoots(Roots(v, false), coll); len(rs) >= 1 && rs[0] != v {
 			// kept in a field of a small carrier type made for the loop (cursor.length = uint(len(x)))
-			return lenOf(rs[0], coll)
+			for _, r := range rs {
+				if r == v || !lenOf(r, coll) {
+					return false
+				}
+			}
+			return true
 		} else {
 			return false
 		}
@@ -542,6 +547,35 @@ func lenOf(v ssa.Value, coll ssa.Value) bool {
 		return false
 	}
 	return sameValue(cl.Call.Args[0], coll)
+}
+
+// sameBodyRoots drops the roots that sit in another body of the same generic function as ref (the origin and its
+// instantiations all store into a field; only the body ref lives in can be compared with ref).
+func sameBodyRoots(rs []ssa.Value, ref ssa.Value) []ssa.Value {
+	fnOf := func(v ssa.Value) *ssa.Function {
+		if in, ok := v.(ssa.Instruction); ok {
+			return in.Parent()
+		}
+		return v.Parent()
+	}
+	orig := func(f *ssa.Function) *ssa.Function {
+		if f != nil && f.Origin() != nil {
+			return f.Origin()
+		}
+		return f
+	}
+	rf := fnOf(ref)
+	if rf == nil {
+		return rs
+	}
+	var out []ssa.Value
+	for _, r := range rs {
+		if f := fnOf(r); f != nil && f != rf && orig(f) == orig(rf) {
+			continue
+		}
+		out = append(out, r)
+	}
+	return out
 }
 
 // sameValue: identical SSA values, or loads of the same address / roots.
@@ -855,8 +889,8 @@ func indexGuard(p *Prog, at ssa.Instruction, coll, idx ssa.Value) string {
 		var vals []ssa.Value
 		for _, b := range cl.Call.StaticCallee().Blocks {
 			if ret, ok := b.Instrs[len(b.Instrs)-1].(*ssa.Return); ok && ridx < len(ret.Results) {
-				if _, isK := ConstInt(ret.Results[ridx]); !isK {
-					vals = append(vals, ret.Results[ridx])
+				if k, isK := ConstInt(ret.Results[ridx]); !isK || k != 0 {
+					vals = append(vals, ret.Results[ridx]) // (a constant 0 is within any non-empty collection)
 				}
 			}
 		}
